@@ -78,6 +78,10 @@ def findPlateausIdx (ex : List Bool) (minN : Nat) : List (Nat × Nat) :=
 /-- contents of a bin -/
 def extract {β : Type} (pts : List β) (r : Nat × Nat) : List β := (pts.drop r.1).take r.2
 
+/-- all bins with their contents: whatever a point carries (dimension coordinate, value, variance, any number
+of further per-point coordinates, mask flags) travels with it -/
+def binContents {β : Type} (pts : List β) (bins : List (Nat × Nat)) : List (List β) := bins.map (extract pts)
+
 inductive Err | coord | runtime
   deriving Repr, DecidableEq
 
@@ -210,5 +214,12 @@ def collapse (c : Coords) (ys : List Float) (r : Nat × Nat) : Collapsed :=
     | [] => ⟨v, 0, 0, 0, 0⟩
     | x :: rest => ⟨v, 0, 0, rest.foldl (fun m w => if w < m then w else m) x,
                     rest.foldl (fun m w => if m < w then w else m) x + 1⟩
+
+/-- `bins.mean()` of one bin for data with variances and masks: masked points (any mask) are skipped;
+value `sum * (1/k)`, variance `sum(var) * (1/k) * (1/k)` over the `k` unmasked points (NaN when `k = 0`) -/
+def collapseMasked (ys vars : List Float) (masked : List Bool) (r : Nat × Nat) : Float × Float :=
+  let keep := (extract (ys.zip (vars.zip masked)) r).filter (fun p => !p.2.2)
+  let inv : Float := ((1 : Int) : Float) / ((keep.length : Int) : Float)
+  (mean (keep.map (·.1)), seqSum (keep.map (·.2.1)) * inv * inv)
 
 end ScnVerif.Filtering
